@@ -136,14 +136,17 @@ def end_rules(ctx, prog):
 
 def option_rules(ctx, prog):
     F = prog.fn("reproc_start")
-    calls = [n for n in F.calls("redirect_init")]
-    ok = len(calls) == 3 and all((field_path(n["c"][5]) or ("", []))[1][-1:] == ["nonblocking"] and (field_path(n["c"][5]) or ("", []))[0] == "options"
-                                 for n in calls)
-    ctx.ob("C17.N2", "reproc_start: redirect_init x3", "the nonblocking option is handed to the constructor of each of the three streams",
-           ok, {"args": [expr_str(n["c"][5]) for n in calls]})
-    st_ = [n for n in F.walk() if n["k"] == "BinaryOperator" and n["op"] == "=" and (field_path(n["c"][0]) or ("", []))[1] == ["nonblocking"]]
-    ok = len(st_) == 1 and (field_path(st_[0]["c"][1]) or ("", []))[1] == ["nonblocking"]
-    ctx.ob("C17.N2s", "reproc_start: process->nonblocking", "the mode is remembered in the handle", ok, None)
+    from . import c10
+    calls, counts, handle_nb = c10.constructor_calls(ctx, prog)
+    per = {}
+    for nb, x, chk, site in calls:
+        per.setdefault(x, []).append(bool(chk.get("nonblocking")))
+    ok = set(per) == {"in", "out", "err"} and all(all(v) for v in per.values()) and bool(counts) and all(c == (1, 1, 1) for c in counts)
+    ctx.ob("C17.N2", "reproc_start: the three constructors", "the nonblocking option (evaluated with the option off and on) is the value "
+           "handed to the constructor of each of the three streams", ok, {"calls": {k: len(v) for k, v in per.items()}}, nontrivial=True)
+    ok = bool(handle_nb) and all(v == fs(nb) for nb, v in handle_nb)
+    ctx.ob("C17.N2s", "reproc_start: process->nonblocking", "after a successful start the handle remembers the mode that was asked for",
+           ok, {"exits": len(handle_nb)}, nontrivial=True)
 
 
 def inventory_rules(ctx, prog):
